@@ -13,15 +13,15 @@ LEVELS = {
  'C03': ('43 Lean frame theorems over list-level store / slot / repeated-field models (everything outside the window unchanged, siblings keep their token lists, new gaps are copies of declared separators, Python list semantics incl. extended slices and drop_many, histories); obligations on pivots and separators; every slot / raw-wrapper op and the whole slice grid replayed on the model in lock-step.', 'views / mappings / value-level properties are observed at the raw-wrapper level'),
  'C04': ('Lean theorems: claim / shift / interleaving-claim / auto-claim preserve the visible tokens (ids, order, text), are permutations moving only placeholders; unclaim touches flags only; obligation: no read-only role reaches a store mutator (372 getters); every primitive claim call is locked-stepped with the model.', 'the effect table is name-based (conservative); dynamic dispatch is not resolved'),
  'C05': ('Lean theorems at tree level: the document invariant (tags, distinct leaves in store order) is preserved by replace / create / remove / insert / extend / remove-items / pop (popped node self-contained) and by every history; lifting lemmas; parse establishes it; witness that the pre-repair extend() violates it; obligations reattach_complete, first_last_canonical; invariant evaluated on the real objects after every operation of random histories.', 'that the generated Python updates the same fields the model updates is checked (oracle + obligations), not proved'),
- 'C06': ('Lean theorems for the model-side premises only (separator discipline: created children are kept apart by the declared separators, new gaps of repeated fields are declared separators with visible text); obligations separators_non_empty, pivots_canonical, pivots_not_cached; re-parse by the real parser after every syntax-preserving edit.', 'PARTIAL: "the printed text parses to the same structure" needs the lexer/parser, which is outside the model; it is checked on every explored history'),
+ 'C06': ('Lean theorems for the model-side premises only (separator discipline: created children are kept apart by the declared separators, new gaps of repeated fields are declared separators with visible text); obligations separators_non_empty, pivots_canonical, pivots_not_cached; the disambiguation loop of Custom.from_value / from_children proved to lose no value (disamb_reads_all) and diffed against the real constructors and the real parser on every value sequence of length <= 3; re-parse by the real parser after every syntax-preserving edit.', 'PARTIAL: "the printed text parses to the same structure" needs the lexer/parser, which is outside the model; it is checked on every explored history'),
  'C07': ('Full refinement proof: for every load factor >= 2 the blocked store (blocks with stored indexes, handles, split/merge/rebalance, fast path) refines a plain list for every operation history; all queries equal their list counterparts; removed tokens detached; obligation on the constants; internal state diffed against the real store on random histories.', 'hand transcription of token_store.py validated by the internal-state diff'),
  'C08': ('Lean theorems: cache invariant preserved by every mutator incl. text updates that add/remove line breaks and the fast path; get_position = size of the text before the token; obligations single writer of _raw_text/size; positions recomputed from the concatenated text on store histories and on parsed multi-block documents.', 'as C07'),
  'C09': ('Lean refinement of the cost group and of payee/narration to records of optionals (every setter branch, iff with the documented rejection, all histories, all start forms), generic optional-slot round trip; history-mode diff on real objects; every value property of every class read back / siblings / re-parse.', 're-parse clause relies on the real parser; four recorded findings about comment ownership / trailing blanks on re-parse'),
- 'C10': ('Lean theorems: handle_splice correct, every raw-wrapper method notifies with a normalised range describing exactly its change, view invariant for every history through any view, views equal filter(raw), Python list semantics for all indices/slices/steps, mapping views equal a first-match ordered multi-dict reference; _raw_indexes diffed line by line.', 'CPython list semantics are a Lean reference definition compared with real lists on every explored op'),
+ 'C10': ('Lean theorems: handle_splice correct, every raw-wrapper method notifies with a normalised range describing exactly its change, view invariant for every history through any view, views equal filter(raw), Python list semantics for all indices/slices/steps, mapping views equal a first-match ordered multi-dict reference; obligation field_assignment_drops_views; _raw_indexes diffed line by line on histories through all aliasing views incl. whole-field assignment and += statements.', 'CPython list semantics are a Lean reference definition compared with real lists on every explored op'),
  'C11': ('Lean theorems: deepcopy total under the invariant, copied store = renamed span, shape/leaves preserved, invariant + whole-store span, equal to the original, same text and flags, disjoint ids; obligation clone_complete; lock-step of the model copy vs the real copy; independence by edits on either side.', 'aliasing of Python objects other than tokens/models is visible only through the follow-up edits'),
  'C12': ('62 Lean theorems by induction on strings: parse(format v) = v, format v lexes back as exactly one token with the stated condition on the next character, every lexeme parses, setter machine consistent for any assignment sequence, per class on explicit decidable domains; obligations pin the escape map and 28 terminal definitions; every value/text diffed against the real codecs, re and parse_token, incl. in-document read back.', 'terminal regexes are hand models validated against re, not derived'),
  'C13': ('Lean theorems over an abstract arithmetic carrier: evaluation is the left fold, every operator (plain/reflected/in-place/unary) has the arithmetic value, printed tokens re-parse to the same tree (reference parser proved complete and sound), parentheses exactly when needed; lark tree vs reference parser and printed text after every application diffed; independent evaluator.', 'decimal arithmetic abstract; operand ownership (nothing consumed, nothing raised) is the oracle\'s'),
- 'C14': ('Lean theorems: ownership invariant (at most one slot per comment, claimed <=> held) preserved by every claim/unclaim/auto call and call list; claims never take a claimed comment; unclaim-claim restores; census, parse-vs-later, idempotence, adjacency and the documented rule evaluated on all parseable layouts of <= 5 lines and on random sequences.', 'PARTIAL: the tree walk deciding which calls auto_claim issues and the documented rule are evaluated on the real code (exhaustively on small layouts), not proved; two recorded rule findings'),
+ 'C14': ('Lean theorems: ownership invariant (at most one slot per comment, claimed <=> held) preserved by every claim/unclaim/auto call and call list; claims never take a claimed comment; unclaim-claim restores; a call with an explicit selection (the empty one included) touches comments of the selection only; census, parse-vs-later, idempotence, adjacency and the documented rule evaluated on all parseable layouts of <= 5 lines and on random sequences.', 'PARTIAL: the tree walk deciding which calls auto_claim issues and the documented rule are evaluated on the real code (exhaustively on small layouts), not proved; two recorded rule findings'),
  'C15': ('Lean theorems about the constructor model (own tokens in order, only declared separators in between, gaps of repeated fields, absent parts emit nothing); obligation from_children_canonical over the extracted recipes; emitted token list of every constructed model diffed against assemble run on the extracted recipe; invariant + re-parse on every subset of optional arguments.', 'PARTIAL: parse-back equality relies on the real parser'),
  'C16': ('Lean theorems over an abstract file map: BFS visits every reachable file once for any include graph and spelling identity, exit writes exactly the changed files / unlinks removed / creates added, a raising body touches nothing, identity decoding round-trips (and the witness that text-mode translation does not); obligations newline=\'\' and makedirs guard; bytes/mtimes/existence compared on real temporary trees and with the model.', 'PARTIAL by nature: OS, glob, decoding and path resolution are runtime behaviour the model mirrors'),
  'C17': ('Lean theorems: getter = maximal blank run modulo zero-width tokens (exact layout characterisation), both sides agree iff the stated layout condition, setter frame (non-blank tokens keep identity/text/order, length changes by the difference), read-back for non-empty values, regex tokenisation; obligation on the regex; lock-step get/set on every model of real documents.', 'sides agreement has a layout hypothesis; its failures on real documents are counted, not failed'),
